@@ -30,6 +30,7 @@ CLAIMED = {
     'C11': ('struct', 'deterministic simulation: divider laws checked at every division of a seeded history (both outcomes of the random dividers), daughter independence via the frame condition', '5/C11'),
     'C13': ('parallel', 'deterministic simulation: real ParallelProcess/_handle_parallel_process over a simulated pipe+worker transport with a seeded scheduler; serial/parallel differential, protocol and shutdown oracles over the transport log, seeded stop points', '5/C13'),
     'C19': ('timeline', 'deterministic simulation: the real TimelineProcess under seeded timelines, timesteps and driver interrupts; timer model over the recorded updates and emitted rows', '5/C19'),
+    'C16': ('composite', 'deterministic simulation (operation history + entry-point differential): seeded generate/merge histories on shared composites vs a plain-union reference after every operation; one composite run through all three engine entry points, at the root and embedded', '5/C16'),
     'C12': ('kernel', 'deterministic simulation: recording emitter vs state snapshots and batch times; emit_step differential', '5/C12'),
 }
 
